@@ -16,6 +16,7 @@ RULE = (
     "Non-trivial = some request spans >= 2 blocks whose physical positions are not consecutive ascending, or touches "
     "the partial last block; distinct = BLAKE2 of the canonical spec JSON."
     ' Images are also opened by a second reader on the same handle after the first reader was dropped.'
+    ' One image in eight stores its blocks at pointers 0x7FFFFFF0 .. 0xFFFFFFFD (unsigned block pointers).'
 )
 ASSUMPTIONS = [
     "block sizes are powers of two >= 512 (the statement says 'every block size'; VDICore only requires a power of two)",
@@ -48,6 +49,11 @@ def vdi_spec(draw, tier="quick", layer=0, fixed_geometry=None):
         kinds = {i: draw(st.sampled_from(["a", "a", "a", "z"])) for i in sorted(idx)}
     alloc_l = [i for i, k in sorted(kinds.items()) if k == "a"]
     slots = draw(strat.placement(len(alloc_l)))
+    if slots and layer == 0 and draw(st.integers(0, 7)) == 0:
+        # block pointers are unsigned 32-bit values (only 0xFFFFFFFF / 0xFFFFFFFE are markers): blocks stored at and beyond pointer
+        # 2^31, up to the largest pointer there is (sparse in-memory file, so the position costs nothing)
+        base = draw(st.sampled_from([0x7FFFFFF0, 0x80000000, 0xC0000001, 0xFFFFFFFD - max(slots)]))
+        slots = [min(s_ + base, 0xFFFFFFFD - (max(slots) - s_)) for s_ in slots]
     bo = 512 * draw(st.sampled_from([1, 2, 8, 2048, 3]))
     do_min = bo + 4 * nb
     do = ((do_min + 511) // 512) * 512 + 512 * draw(st.sampled_from([0, 0, 1, 7, 2048]))
@@ -113,6 +119,8 @@ def check(spec) -> Outcome:
     out.cls(f"bs=2^{spec['block_size'].bit_length() - 1}" if spec["block_size"] & (spec["block_size"] - 1) == 0 else "bs=not-a-power-of-two", "tail_partial" if spec["disk_size"] % spec["block_size"] else "tail_full")
     if spec["block_size"] < 8192:
         out.cls("block<buffer")
+    if any(ph >= 1 << 31 for _, ph in spec["alloc"]):
+        out.cls("pointer>=2^31")
     if spec.get("parent"):
         from hv.sparse import Overlay
 
